@@ -129,6 +129,11 @@ def gen_jobs(prop, tier, seed):
                 # methods produced by one def in a factory: they share a code object
                 for m in w["methods"]:
                     m["factory"] = True
+                if q % 8 == 5 and not any(m["kwn"] for m in w["methods"]):
+                    # ... delegating with f.next instead of call_next
+                    for m in w["methods"]:
+                        if m["body"] == "next":
+                            m["body"] = "fnext"
             if q % 3 == 0 and not any(m["kwn"] for m in w["methods"]):
                 # call_next with *other* arguments (other classes, possibly another arity): the continuation
                 # for a type tuple the method was not entered with
